@@ -169,6 +169,30 @@ impl Pattern {
     }
 }
 
+#[cfg(rosu_pp_verif)]
+impl Pattern {
+    /// `[column, start_time, end_time]` of each note in insertion order; the
+    /// column is recovered from the position without clamping.
+    pub(crate) fn verif_notes(&self, total_columns: i32) -> String {
+        let divisor = 512.0 / total_columns as f32;
+
+        let notes: Vec<String> = self
+            .hit_objects
+            .iter()
+            .map(|h| {
+                format!(
+                    "[{},{},{}]",
+                    (h.pos.x / divisor).floor() as i64,
+                    h.start_time,
+                    h.end_time()
+                )
+            })
+            .collect();
+
+        format!("[{}]", notes.join(","))
+    }
+}
+
 fn column_to_pos(column: u8, total_columns: i32) -> f32 {
     let divisor = 512.0 / total_columns as f32;
 
